@@ -310,6 +310,12 @@ class Evaluator:
             v = env.get(t.left.id)
             isnone = isinstance(v, Scalar) and v.text == "None"
             return isnone if isinstance(t.ops[0], ast.Is) else not isnone
+        # a count that is absent (None) compared with a number: `None == 1` is False, `None != 1` is True
+        if isinstance(t, ast.Compare) and len(t.ops) == 1 and isinstance(t.ops[0], (ast.Eq, ast.NotEq)) \
+                and isinstance(t.left, ast.Name) and isinstance(env.get(t.left.id), Scalar) and env[t.left.id].text == "None" \
+                and isinstance(t.comparators[0], ast.Constant) and isinstance(t.comparators[0].value, (int, float)) \
+                and not isinstance(t.comparators[0].value, bool):
+            return isinstance(t.ops[0], ast.NotEq)
         if isinstance(t, ast.BoolOp):
             vals = [self.test(fi, x, env) for x in t.values]
             return all(vals) if isinstance(t.op, ast.And) else any(vals)
@@ -390,6 +396,11 @@ class Evaluator:
             return Tup(tuple(self.expr(fi, x, env) for x in e.elts))
         if isinstance(e, ast.List) and not e.elts:
             return L("<empty>", fresh=True)
+        if isinstance(e, ast.List) and len(e.elts) == 1 and not isinstance(e.elts[0], ast.Starred):
+            v1 = self.expr(fi, e.elts[0], env)
+            if isinstance(v1, E):          # [extreme element] is the window of one at that end, as a new list
+                return L(v1.src, v1.kind, v1.order, ("FIRST" if v1.at == "first" else "LAST", "1"), True)
+            raise OrdUnknown(f"{fi.name}: expression `{norm(e, 60)}` not understood")
         if dotted(e) in ("TaskType.MIN", "TaskType.MAX"):
             return self.const(e)
         if dotted(e) in ("heapq.nsmallest", "heapq.nlargest"):
@@ -476,6 +487,16 @@ class Evaluator:
                 return replace(base, window=("OTHER", txt + ":"), fresh=True)
             return replace(base, window=("OTHER", norm(sl)), fresh=True)
         # index
+        if isinstance(sl, (ast.Call, ast.Name)):
+            try:
+                iv = self.expr(fi, sl, env)
+            except OrdUnknown:
+                iv = None
+            if isinstance(iv, tuple) and iv and iv[0] == "ARG":
+                # x[argmin(costs of x)]: the cheapest element = the first of the ascending order (argmax: the last)
+                if iv[1] == base.src and base.window == ("ALL",) and base.order == "ORIG" and base.kind == "objs":
+                    return E(base.src, "objs", "ASC", "first" if iv[2] == "min" else "last")
+                raise OrdUnknown(f"{fi.name}: `{norm(sl)}` indexes a list it was not computed from")
         if isinstance(sl, ast.Constant) and sl.value == 0:
             return self.element(base, "first")
         if isinstance(sl, ast.UnaryOp) and isinstance(sl.op, ast.USub) and isinstance(sl.operand, ast.Constant) and sl.operand.value == 1:
@@ -537,6 +558,22 @@ class Evaluator:
                 if cs is not None and cs[0] == "dev":
                     raise OrdDeviation(f"{fi.name}: argsort of `{norm(a0, 50)}` is not argsort of the agents' costs: {cs[1]}")
                 raise OrdUnknown(f"{fi.name}: argsort argument `{norm(a0, 50)}` not understood")
+            if d in ("np.argmin", "numpy.argmin", "np.argmax", "numpy.argmax") and len(c.args) == 1 and not c.keywords:
+                a0 = c.args[0]
+                src_ = None
+                if isinstance(a0, ast.Name) and isinstance(env.get(a0.id), Costs):
+                    src_ = env[a0.id].src
+                else:
+                    cs = costs_source(fi, a0)
+                    if cs is not None and cs[0] == "dev":
+                        raise OrdDeviation(f"{fi.name}: `{norm(c, 50)}` is not taken over the agents' costs: {cs[1]}")
+                    if cs is not None and cs[0] == "costs":
+                        v_ = self.expr(fi, cs[1], env)
+                        if isinstance(v_, L) and v_.window == ("ALL",) and v_.order == "ORIG":
+                            src_ = v_.src
+                if src_ is None:
+                    raise OrdUnknown(f"{fi.name}: argument of `{norm(c, 50)}` not understood")
+                return ("ARG", src_, "min" if d.endswith("argmin") else "max")
             if d in ("np.flip", "numpy.flip") and len(c.args) == 1:
                 v = self.expr(fi, c.args[0], env)
                 if isinstance(v, L):
@@ -609,6 +646,13 @@ class Evaluator:
                 if isinstance(v, L) and v.window == ("ALL",):
                     self.sort_order(fi, c, env)   # validates key
                     return E(v.src, v.kind, "ASC", "first" if f.id == "min" else "last")
+            if f.id == "int" and len(c.args) == 1 and not c.keywords:
+                v = self.expr(fi, c.args[0], env)
+                if isinstance(v, tuple) and v and v[0] == "ARG":
+                    return v
+                if isinstance(v, Scalar):
+                    return Scalar(self.scalar_text(fi, c, env))
+                raise OrdUnknown(f"{fi.name}: call `{norm(c, 60)}` not understood")
             if f.id == "len" and len(c.args) == 1:
                 return Scalar(self.scalar_text(fi, c, env))
             # another helper of helpers.py
@@ -659,6 +703,20 @@ def pinned_empty(path: list, got) -> bool:
     return zero and isinstance(got, L) and got.src == "<empty>"
 
 
+def pins_of(path: list) -> dict:
+    """{count name: literal} for the `name == <int>` tests that hold on the path"""
+    import re as _re
+    out = {}
+    for (t, b) in path:
+        m = _re.fullmatch(r"(\w+) == (\d+)", t) or None
+        if m and b:
+            out[m.group(1)] = m.group(2)
+        m2 = _re.fullmatch(r"(\w+) != (\d+)", t)
+        if m2 and not b:
+            out[m2.group(1)] = m2.group(2)
+    return out
+
+
 def evaluate(prog: Program, name: str, direction: str, n_params: Optional[dict] = None, ok=None):
     """Abstract result of helpers.<name>(population, <counts>, task_type=direction).  When the helper branches on its counts
     / the population size every path is evaluated; with an acceptance predicate `ok` the first path whose result is not
@@ -670,8 +728,10 @@ def evaluate(prog: Program, name: str, direction: str, n_params: Optional[dict] 
         return paths[0][1], paths[0][2]
     results = [(p_, g_, e_) for (p_, g_, e_) in paths if not pinned_empty(p_, g_)]
     if ok is not None:
+        import inspect as _inspect
+        two = len(_inspect.signature(ok).parameters) >= 2
         for (p_, g_, e_) in results:
-            if not ok(g_):
+            if not (ok(g_, pins_of(p_)) if two else ok(g_)):
                 return g_, e_
         return results[0][1], results[0][2]
     first = results[0]
